@@ -30,7 +30,43 @@ def _entry(pid, text, oracle, n_quick=600, n_thorough=40000, offset=0, expected=
     }
 
 
+def _fe_entry(pid, module, text, oracle, n_quick, n_thorough, expected=(), scenarios=None):
+    return {
+        'level': 'exploration',
+        'engine': 'batchsim',
+        'technique': DST + ': ' + oracle,
+        'design_ref': f'DESIGN.md section 6 ({pid}), sections 4 and 5.1',
+        'level_text': text,
+        'level_note': _NOTE,
+        'scenarios': scenarios or [{'module': module, 'quick': n_quick, 'thorough': n_thorough,
+                                    'wall_cap': {'quick': 400.0, 'thorough': 3000.0}}],
+        'expected_probes': list(expected),
+    }
+
+
 CHECKS = {
+    'C08': _fe_entry('C08', 'worlds.batch.adversarial',
+                     'A raw client sends schema-valid but adversarial job specifications (missing / self / later parents, '
+                     'parents in never-submitted ranges, job ids outside the reserved range, wrong counts) through every '
+                     'submission endpoint of the real front end; committed updates must have closed dependency graphs and '
+                     'exactly their reserved ids; rejected submissions must leave the visible state digest unchanged; '
+                     'with the real driver the committed batch must actually finish.',
+                     'adversarial submissions against the real front end, structural oracle on committed updates, '
+                     'state-digest oracle on rejections, bounded liveness with the real driver',
+                     0, 0, expected=['mutation_missing_parent', 'mutation_self_parent', 'mutation_ids_not_from_1',
+                                     'ghost_range_reserved'],
+                     scenarios=[{'module': 'worlds.batch.adversarial', 'quick': 6000, 'thorough': 300000,
+                                 'wall_cap': {'quick': 400.0, 'thorough': 3000.0}},
+                                {'module': 'worlds.batch.adversarial_driver', 'quick': 150, 'thorough': 6000,
+                                 'seed_offset': 5_000_000,
+                                 'wall_cap': {'quick': 400.0, 'thorough': 3000.0}}]),
+    'C09': _fe_entry('C09', 'worlds.batch.submit',
+                     'The real client library submits batches and updates through a network that drops and duplicates '
+                     'requests and loses responses (its real retry loop re-sends) while the database injects deadlocks, '
+                     'lost connections and ack-lost commits; after every commit and at the end: no duplicate batch / '
+                     'update / job / group, contiguous ordered id ranges, counters equal recount, client ids == server ids.',
+                     'real client + real front end over a lossy simulated network; exactly-once and id-agreement oracles',
+                     12000, 600000, expected=['co_updater_joined', 'submit_raised']),
     'C01': _entry('C01', 'After every committed transaction of seeded service histories the scheduler counters '
                          '(per user / instance collection, and per job group cancellable rows) are compared with a '
                          'recount from the jobs table. Sampling of histories, not a proof.',
